@@ -45,7 +45,7 @@ func codecs() []*codec {
 			parse: strz.UnicodeParse, parseSS: strz.UnicodeParseToString[string], parseSB: strz.UnicodeParseToString[[]byte],
 			menu: []string{"a", `\U00000041`, `\U00000000`, `\U0010FFFF`, `\U00004E16`, `\`, `\U`,
 				`\U0000`, `\U0000004`, `\UG0000041`, `\U0000G041`, `\U0000004G`, `\U00110000`, `\UFFFFFFFF`,
-				`\U0000abcd`, `\U0000D800`, `\U0000DC00`, lu("0041"), "0", "\xff"},
+				`\U0000adef`, `\U0000D800`, `\U0000DC00`, lu("0041"), "0", "\xff"},
 			raws: []rawFam{{alpha: `\U07F8Dg`}, {alpha: `\U01g`}},
 		},
 		{name: "Utf16", prefix: lu(""), digits: 4, base: 16, unicode: true,
@@ -53,7 +53,7 @@ func codecs() []*codec {
 			formatSS: strz.Utf16FormatToString[string], formatSB: strz.Utf16FormatToString[[]byte],
 			parse: strz.Utf16Parse, parseSS: strz.Utf16ParseToString[string], parseSB: strz.Utf16ParseToString[[]byte],
 			menu: []string{"a", lu("0041"), lu("0000"), lu("FFFF"), lu("4E16"), lu("D800"), lu("DC00"), lu("DBFF"), lu("DFFF"),
-				`\`, lu(""), lu("00"), lu("004"), lu("G041"), lu("00G1"), lu("004G"), lu("abcd"), `\x41`, "0", "\xff"},
+				`\`, lu(""), lu("00"), lu("004"), lu("G041"), lu("00G1"), lu("004G"), lu("adef"), `\x41`, "0", "\xff"},
 			raws: []rawFam{{alpha: "\\" + "u07F8Dg"}},
 		},
 	}
